@@ -64,6 +64,12 @@ class _QC(object):
         d = o.re * o.re + o.im * o.im
         return _QC((self.re * o.re + self.im * o.im) / d, (self.im * o.re - self.re * o.im) / d)
 
+    def __rtruediv__(self, o):
+        return _QC(o) / self
+
+    def __rsub__(self, o):
+        return _QC(o) - self
+
 
 def _series(u, coef, terms=14):
     acc, p = _QC(0), _QC(1)
@@ -124,4 +130,90 @@ def small_argument_cases(Bicomplex, rtol=1e-12):
                             bad.append(dict(function=name, x=x, h=h, component=cname, got=float(g), spec=float(w),
                                             relative_error=float(abs(g - w) / abs(w))))
                             break
+    return cnt, bad
+
+
+def dea3_integer_cases(dea3):
+    """integer-typed terms (python ints, lists, integer ndarrays): dea3 returns what it returns for the same numbers as floats"""
+    bad = []
+    cnt = 0
+    with warnings.catch_warnings():
+        warnings.simplefilter('ignore')
+        for tri in [(7, 5, 4), (16, 8, 4), (1, 3, 9), (-8, 4, -2), (2, 2, 2), (0, 0, 0), (10, 4, 1)]:
+            for wrap in (lambda v: v, lambda v: [v, v + 1], lambda v: np.array([v, 2 * v, -v]), lambda v: np.array([[v, v + 3]], dtype=np.int32)):
+                a = [wrap(t) for t in tri]
+                b = [np.asarray(wrap(t), dtype=float) for t in tri]
+                cnt += 1
+                try:
+                    ra, ea = dea3(*a); rb, eb = dea3(*b)
+                except Exception as e:
+                    bad.append(dict(terms=str(a)[:80], raised=repr(e)[:80])); continue
+                if np.shape(ra) != np.shape(rb) or not np.allclose(ra, rb, rtol=1e-12, atol=1e-300, equal_nan=True) or \
+                        not np.allclose(ea, eb, rtol=1e-9, atol=1e-300, equal_nan=True):
+                    bad.append(dict(terms=[np.asarray(t).tolist() for t in a], with_integer_terms=np.asarray(ra).tolist(), with_float_terms=np.asarray(rb).tolist()))
+    return cnt, bad
+
+
+def fd_weights_integer_cases(fb):
+    """integer-typed nodes (range, list of ints, integer ndarrays) with an expansion point that is not an integer: the weights
+    are those of the same nodes given as floats"""
+    bad = []
+    cnt = 0
+    for nodes in [range(-1, 3), [-2, -1, 0, 1, 2], np.array([0, 1, 3, 4]), np.array([5, 2, 0, -1], dtype=np.int32), [0, 1]]:
+        for x0 in (0.5, 2.5, -0.25, 1):
+            for n in (0, 1, 2):
+                if n >= len(nodes):
+                    continue
+                cnt += 1
+                a = fb.fd_weights_all(nodes, x0, n)
+                b = fb.fd_weights_all(np.asarray(list(nodes), dtype=float), float(x0), n)
+                r = fb.fd_weights(nodes, x0, n)
+                if np.shape(a) != np.shape(b) or not np.allclose(a, b, rtol=1e-12, atol=1e-13) or not np.allclose(r, b[n], rtol=1e-12, atol=1e-13):
+                    bad.append(dict(nodes=list(nodes) if not isinstance(nodes, np.ndarray) else nodes.tolist(), x0=x0, n=n,
+                                    with_integer_nodes=np.asarray(a).tolist(), with_float_nodes=np.asarray(b).tolist()))
+    return cnt, bad
+
+
+def fd_derivative_grid_cases(fd_derivative):
+    """fd_derivative on grids and sample types that the symbolic harness does not represent: spacings far from 1
+    (non-uniform at a tiny scale, nearly-but-not equidistant), integer-typed grids with float samples, complex samples.
+    Samples of a polynomial of degree 2*(n//2+m) in the normalised variable t = (x - x[0]) / (x[-1] - x[0]); the n-th
+    derivative is compared at every grid point with a conditioning-scaled tolerance."""
+    import math
+    bad = []
+    cnt = 0
+    rng = np.random.default_rng(11)
+    for n, m in [(1, 1), (2, 1), (1, 2), (3, 2)]:
+        mm = n // 2 + m
+        deg = 2 * mm
+        N = 2 * mm + 2 + 5
+        jit = rng.uniform(-0.3, 0.3, N)
+        grids = [('non-uniform at scale 2**-30', (np.arange(N) + jit) * 2.0 ** -30, float),
+                 ('nearly equidistant (1e-6 relative)', np.arange(N) * 0.25 * (1 + 1e-6 * jit), float),
+                 ('non-uniform at scale 2**20', (np.arange(N) + jit) * 2.0 ** 20, float),
+                 ('integer-typed grid', np.cumsum(rng.integers(1, 4, N)).astype(np.int64), float),
+                 ('integer-typed decreasing grid', -np.cumsum(rng.integers(1, 4, N)).astype(np.int32), float),
+                 ('complex samples', np.sort(rng.uniform(-1, 1, N)), complex)]
+        coef = rng.uniform(-1, 1, deg + 1) + (1j * rng.uniform(-1, 1, deg + 1))
+        for gname, x, styp in grids:
+            cnt += 1
+            xf = np.asarray(x, dtype=float)
+            span = xf[-1] - xf[0]
+            t = (xf - xf[0]) / span
+            c = coef if styp is complex else coef.real
+            fx = sum(c[k] * t ** k for k in range(deg + 1))
+            exact = sum(c[k] * (math.factorial(k) / math.factorial(k - n)) * t ** (k - n) for k in range(n, deg + 1)) / span ** n
+            try:
+                with warnings.catch_warnings():
+                    warnings.simplefilter('ignore')
+                    du = fd_derivative(fx, x, n, m)
+            except Exception as e:
+                bad.append(dict(n=n, m=m, grid=gname, raised=repr(e)[:100])); continue
+            du = np.asarray(du)
+            hmin = np.min(np.abs(np.diff(t)))
+            tol = 1e5 * np.finfo(float).eps * (1.0 / hmin) ** n * max(1.0, float(np.max(np.abs(fx)))) / abs(span) ** n
+            if du.shape != (N,) or not np.all(np.abs(du - exact) <= tol):
+                k = int(np.argmax(np.abs(du - exact))) if du.shape == (N,) else 0
+                bad.append(dict(n=n, m=m, grid=gname, index=k, got=str(du[k] if du.shape == (N,) else du.shape), expected=str(exact[k]), tolerance=float(tol),
+                                result_dtype=str(du.dtype)))
     return cnt, bad
